@@ -1,8 +1,9 @@
 //! Contains content parser of AVRA-rs
 
+#[cfg(not(avra_verif))]
+use std::collections::{BTreeSet, HashMap};
 use std::{
     cell::RefCell,
-    collections::{BTreeSet, HashMap},
     env, fmt,
     fs::File,
     io::Read,
@@ -20,6 +21,12 @@ use crate::{
 };
 
 use failure::{bail, Error};
+#[cfg(avra_verif)]
+use crate::{
+    vmap::{BTreeSet, HashMap},
+    vmap_btreeset as btreeset, vmap_hashmap as hashmap,
+};
+#[cfg(not(avra_verif))]
 use maplit::{btreeset, hashmap};
 use strum_macros::Display;
 
